@@ -157,7 +157,7 @@ def outage_worker(rt):
                 if st.frames and st.frames[-1].fn['name'] == LOGIN: raise PathCut('login: past its only profile write')
             H.ex.on_call[f'(*{M}.RuntimeState).userBootstrapOtpHash'] = past
     try:
-        H, paths, path = sweep.run_route(ir, rt, budget_s=600, extra=extra, max_paths=40000, loop_bound=3)
+        H, paths, path = sweep.run_route(ir, rt, budget_s=600, extra=extra, max_paths=40000, loop_bound=5)
     except Unsupported as e:
         out['inconclusive'] = str(e); return out
     if paths is None: out['inconclusive'] = 'no handler body'; return out
